@@ -131,6 +131,8 @@ def run(repo: Repo, rep: Report, tier: str) -> None:
     from ..core import helper_contracts as _hc
     _hc.report(repo, rep, "R08.8", _hc.get_config_contract(repo), "mashumaro.core.meta.code.builder::CodeBuilder.get_config")
     _hc.report(repo, rep, "R08.8", _hc.codegen_option_contract(repo), "mashumaro.core.meta.code.builder::CodeBuilder.is_code_generation_option_enabled")
+    from ..core import helper_contracts as _hc2
+    _hc2.report(repo, rep, "R09.6", _hc2.dataclass_fields_contract(repo), "mashumaro.core.meta.code.builder::CodeBuilder.dataclass_fields")
 
 def _r08_2(repo: Repo, rep: Report) -> None:
     fi = repo.func(M_BUILDER, "CodeBuilder.get_dialect_or_config_option")
@@ -261,3 +263,6 @@ LEVEL_TEXT += _ADDENDUM
 _ADD2 = ' R08.8: contracts of get_config (own vs inherited Config, completion of a non-BaseConfig Config) and is_code_generation_option_enabled, evaluated on their own bodies.'
 EXPLANATION += _ADD2
 LEVEL_TEXT += _ADD2
+_ADD3 = " Borrowed: R09.6 (dataclass_fields: the nearest ancestor's Field wins; a bare re-annotation drops the inherited Field)."
+EXPLANATION += _ADD3
+LEVEL_TEXT += _ADD3
